@@ -259,7 +259,6 @@ func checkC19(c *Ctx) {
 	}
 	// exhaustive small scope
 	maxL := c.N(4, 5)
-	valChoices := [][]byte{nil, make([]byte, 8), {1, 0, 0, 0, 0, 0, 0, 0}, {2, 0, 0, 0, 0, 0, 0, 0}, {255, 255, 255, 255, 255, 255, 255, 255}}
 	var rec func(tags []byte)
 	rec = func(tags []byte) {
 		if len(tags) > 0 {
@@ -267,12 +266,39 @@ func checkC19(c *Ctx) {
 				if int(ts) < len(tags)-1 || int(ts) > 2*len(tags) {
 					continue
 				}
-				nv := r.Intn(len(tags)*2 + 1)
-				var vals []byte
-				for j := 0; j < nv; j++ {
-					vals = append(vals, valChoices[1+r.Intn(len(valChoices)-1)]...)
+				for rep := 0; rep < 3; rep++ {
+					// as many value words as the tags need (sometimes one more or fewer),
+					// drawn from small offsets, their negatives and extremes
+					need := 0
+					for _, t := range tags {
+						switch t {
+						case '"', 'e':
+							need += 2
+						case 'l', 'u', 'd', '{', '[', 'r':
+							need++
+						}
+					}
+					nv := need
+					if rep == 2 {
+						nv = r.Intn(need + 2)
+					}
+					var vals []byte
+					for j := 0; j < nv; j++ {
+						var v uint64
+						switch r.Intn(5) {
+						case 0, 1, 2:
+							v = uint64(r.Intn(8))
+						case 3:
+							v = ^uint64(0) - uint64(r.Intn(6))
+						default:
+							v = []uint64{1 << 55, 1 << 56, uint64('d') << 56, uint64('N') << 56, 1 << 63}[r.Intn(5)]
+						}
+						var t8 [8]byte
+						binary.LittleEndian.PutUint64(t8[:], v)
+						vals = append(vals, t8[:]...)
+					}
+					c.tryBlob("exhaustive-tags", rebuild(ts, tags, vals, []byte("abc")), true, &reqs, &pends)
 				}
-				c.tryBlob("exhaustive-tags", rebuild(ts, tags, vals, []byte("abc")), true, &reqs, &pends)
 			}
 		}
 		if len(tags) == maxL {
@@ -289,6 +315,14 @@ func checkC19(c *Ctx) {
 	c.tryBlob("regress", rebuild(4, []byte{'n', '{'}, []byte{255, 255, 255, 255, 255, 255, 255, 255}, nil), true, &reqs, &pends)
 	nopInject := make([]byte, 16)
 	binary.LittleEndian.PutUint64(nopInject, uint64('N')<<56)
+	// [ d n : the number's payload word overwrites the array's closing tag
+	{
+		var v [16]byte
+		binary.LittleEndian.PutUint64(v[:8], 3)
+		binary.LittleEndian.PutUint64(v[8:], 0x4000000000000000)
+		c.tryBlob("regress-overwritten-close", rebuild(4, []byte{'[', 'd', 'n'}, v[:], nil), true, &reqs, &pends)
+		c.tryBlob("regress-overwritten-close", rebuild(4, []byte{'{', '"', 'n'}, append(v[:8:8], append(make([]byte, 8), make([]byte, 8)...)...), []byte("abc")), true, &reqs, &pends)
+	}
 	le := func(vs ...uint64) []byte {
 		var b []byte
 		for _, v := range vs {
